@@ -1,0 +1,26 @@
+//go:build verif
+
+// Package vhook holds the verification hooks: a file-system tap and pause points.
+// They are compiled in only with the build tag "verif"; without it every call is an
+// empty function. The hooks never change behaviour: they only report (FS) or
+// give an external controller the chance to hold a goroutine at a named point (At).
+package vhook
+
+// FS is called after every successful file-system mutation of a log directory:
+// op is one of create, write, fsync, rename, remove, dirsync.
+var FS func(op, path, path2 string, offset, length int64)
+
+// Pause is called at named points of the code (critical-section boundaries).
+var Pause func(point string)
+
+func FSEvent(op, path, path2 string, offset, length int64) {
+	if f := FS; f != nil {
+		f(op, path, path2, offset, length)
+	}
+}
+
+func At(point string) {
+	if f := Pause; f != nil {
+		f(point)
+	}
+}
